@@ -127,7 +127,7 @@ func runC05(c *eng.Ctx) {
 			"tsdb:Head.truncateSelectedSeries": "shouldEvict callback, runs under the series lock in stripeSeries.gcSeries",
 		},
 		CallerHolds: []string{"tsdb:memSeries.append", "tsdb:memSeries.appendHistogram", "tsdb:memSeries.appendFloatHistogram",
-			"tsdb:memSeries.iterator", "tsdb:memSeries.cleanupAppendIDsBelow", "tsdb:hasAppendIDAbove"}})
+			"tsdb:memSeries.iterator", "tsdb:memSeries.visibleSamples", "tsdb:Head.chunkFromSeries", "tsdb:memSeries.cleanupAppendIDsBelow", "tsdb:hasAppendIDAbove"}})
 	{
 		g := c.Fn("tsdb:stripeSeries.gcSeries").InnerClosure("check", eng.CallNamed("shouldEvict"))
 		g.Dom("R4", p.Call("sync:Mutex.Lock").WithRecv("series", eng.IsIdent("series")), eng.CallNamed("shouldEvict"))
@@ -137,6 +137,15 @@ func runC05(c *eng.Ctx) {
 		f := c.Fn("tsdb:safeHeadChunk.Iterator")
 		f.Chain("R4", p.Call("sync:Mutex.Lock"), p.Call("tsdb:memSeries.iterator"), p.Call("sync:Mutex.Unlock"))
 		c.CallersSubset("R4", "tsdb:memSeries.iterator", 1, "tsdb:safeHeadChunk.Iterator")
+		// visibleSamples reads the ring: from iterator (above) and from chunkFromSeries, whose callers hold the lock
+		c.CallersSubset("R4", "tsdb:memSeries.visibleSamples", 2, "tsdb:memSeries.iterator", "tsdb:Head.chunkFromSeries")
+		c.CallersSubset("R4", "tsdb:Head.chunkFromSeries", 3, "tsdb:headChunkReader.chunk", "tsdb:HeadAndOOOChunkReader.chunkOrIterable")
+		for _, fn := range []string{"tsdb:headChunkReader.chunk", "tsdb:HeadAndOOOChunkReader.chunkOrIterable"} {
+			g := c.Fn(fn)
+			g.Dom("R4", p.Call("sync:Mutex.Lock"), p.Call("tsdb:Head.chunkFromSeries"))
+			g.Has("R4", eng.Deferred(p.Call("sync:Mutex.Unlock")), 1)
+			g.Hasnt("R4", p.Call("sync:Mutex.Unlock")) // only deferred: held until the chunk is wrapped
+		}
 	}
 	// ---- R5 isolation states handed to chunk readers are created and closed ----
 	{
@@ -160,7 +169,7 @@ func runC05(c *eng.Ctx) {
 	// are indexed oldest-first but walked newest-first, so the newest has index count−1 — the same convention
 	// memSeries.chunk uses to look a chunk up.
 	{
-		it := c.Fn("tsdb:memSeries.iterator")
+		it := c.Fn("tsdb:memSeries.visibleSamples")
 		lin := func(f *eng.Fn, e ast.Expr) string {
 			l, ok := eng.Linear(f.Info, e)
 			if !ok {
